@@ -117,7 +117,24 @@ def gcm_d(tag):
         yield tag
 
 
-GCM = {"a": gcm_a, "b": gcm_b, "c": gcm_c, "d": gcm_d}
+class InnerBad(InnerCM):
+    """a manager opened inside a wrapper's generator whose own description fails: the wrapper's generator stack is then
+    extracted with an error recorded on it - which is no reason not to unwrap the wrapper"""
+
+
+@elaborate_context.register(InnerBad)
+def _elab_innerbad(m, ctx):
+    raise ValueError("describing the inner manager fails")
+
+
+@contextmanager
+def gcm_e(tag):
+    INNER[tag] = InnerBad(tag)
+    with INNER[tag]:
+        yield tag
+
+
+GCM = {"a": gcm_a, "b": gcm_b, "c": gcm_c, "d": gcm_d, "e": gcm_e}
 BY_FRAME = {}   # id(generator frame) -> link index
 
 
@@ -130,7 +147,7 @@ def _ucg_hook(frame, ctx):
     ok = frame.pyframe is mgr.gen.gi_frame and isinstance(frame, stackscope.Frame)
     # the hook must see the same, fully analysed Frame on both paths (inner stack present / exiting): its
     # contexts are the managers opened inside the generator (real hooks, e.g. the pytest-trio glue, rely on it)
-    want = [INNER.get("g%d" % idx)] if W["links"][idx]["fn"] == "d" else []
+    want = [INNER.get("g%d" % idx)] if W["links"][idx]["fn"] in ("d", "e") else []
     got = [c.obj for c in frame.contexts]
     if len(got) != len(want) or any(a is not b for a, b in zip(got, want)):
         ok = False
@@ -141,6 +158,7 @@ def _ucg_hook(frame, ctx):
 unwrap_context_generator.register(gcm_a, _ucg_hook)
 unwrap_context_generator.register(gcm_c, _ucg_hook)
 unwrap_context_generator.register(gcm_d, _ucg_hook)
+unwrap_context_generator.register(gcm_e, _ucg_hook)
 
 
 def build(case, enter_head=True):
